@@ -20,7 +20,7 @@ BUDGET = {'quick': {'examples': 3200, 'wall': 220}, 'thorough': {'examples': 600
 ASSUMPTIONS = ['tolerance 5e-4 up to cond 1e3, 5e-7*cond up to 1e5, beyond excluded (statement)',
                'domain of the statement: unjoined wires >= 2 segments apart, one wire end per ground point']
 LABEL_FLOORS = {'reversal-at-junction': 0.3, 'split': 0.3, 'reorder': 0.5, 'env-ideal': 0.2, 'grounded-end2-in-variant': 0.05,
-                'deg>=3': 0.1}
+                'deg>=3': 0.07}
 
 
 @st.composite
